@@ -518,20 +518,6 @@ End Go.
 Lemma accepts_any_json T ft t : get_det T t = Some DJsonValue -> accepts_any T (S ft) t = true.
 Proof. intro H. cbn [accepts_any]. rewrite H. reflexivity. Qed.
 
-(* integer types of the format table: the validator's range test succeeds *)
-Definition int_kind_ok (f : option ustring) (r : ustring) : bool :=
-  match int_range_u r with
-  | Some (lo, hi, _) => lower_ok lo f numv_none && upper_ok hi f numv_none
-  | None => false
-  end.
-
-Lemma int_table_ok :
-  forallb (fun p => int_kind_ok (Some (fst p)) (snd p)) int_format_type = true.
-Proof. vm_compute. reflexivity. Qed.
-
-Lemma int_i64_ok : int_kind_ok None s_i64 = true.
-Proof. vm_compute. reflexivity. Qed.
-
 (* ------------------------------------------------------------------ boolean tests of the classifier *)
 Lemma is_none_true {X} (o : option X) : is_none o = true -> o = None.
 Proof. destruct o; [discriminate|reflexivity]. Qed.
@@ -693,7 +679,7 @@ Section Main.
   (* everything an arm of [kind_of_type] has tested *)
   Lemma kind_of_type_inv fmt enum nv sv ik items mni mxi props req ap tt k :
     kind_of_type fmt enum nv sv ik items mni mxi props req ap tt = Some k ->
-    nv = numv_none /\
+    match k with KInt _ => True | _ => nv = numv_none end /\
     match k with KStrC mx mn pat => sv = mkStrv mx mn pat /\ strv_is_none sv = false | _ => sv = strv_none end /\
     match k with KVec | KVecAny => len_plain mni mxi = true | _ => mni = None /\ mxi = None end /\
     match k with KEnum _ => True | _ => enum = None end /\
@@ -707,7 +693,7 @@ Section Main.
     | KNull => tt = TNull
     | KNum => tt = TNumber
     | KEnum raws => tt = TString /\ exists es, enum = Some es /\ jstrs es = Some raws
-    | KInt r => tt = TInteger /\ ((fmt = None /\ r = s_i64) \/ exists f, fmt = Some f /\ assoc f int_format_type = Some r)
+    | KInt r => tt = TInteger /\ exists b, ibounds_of nv = Some b /\ r = choose_int fmt b
     | KStruct deny => tt = TObject /\ ap_simple ap = Some deny
     | KMap => tt = TObject /\ props = [] /\ req = [] /\ match ap with Some (SBool false) => False | _ => True end
     | KVec => tt = TArray /\ ik = ItemsSingle /\ exists it, items = [it]
@@ -717,10 +703,9 @@ Section Main.
     unfold kind_of_type. destruct tt.
     - destruct (_ && _) eqn:Hc; intro H; [injection H as <-|discriminate]. bool_facts. subst. repeat split; reflexivity.
     - destruct (_ && _) eqn:Hc; intro H; [injection H as <-|discriminate]. bool_facts. subst. repeat split; reflexivity.
-    - destruct (_ && _) eqn:Hc; [|discriminate]. bool_facts. subst. destruct fmt as [f|].
-      + destruct (assoc f int_format_type) as [r|] eqn:E; cbn [option_map]; intro H; [|discriminate].
-        injection H as <-. repeat split; try reflexivity. right. exists f. split; [reflexivity|exact E].
-      + intro H. injection H as <-. repeat split; try reflexivity. left. split; reflexivity.
+    - destruct (_ && _) eqn:Hc; [|discriminate]. bool_facts. subst.
+      destruct (ibounds_of nv) as [b|] eqn:E; cbn [option_map]; intro H; [|discriminate].
+      injection H as <-. repeat split; try reflexivity. exists b. split; reflexivity.
     - destruct (_ && _) eqn:Hc; intro H; [injection H as <-|discriminate]. bool_facts. subst. repeat split; reflexivity.
     - destruct (_ && _) eqn:Hc; [|discriminate]. bool_facts. subst. destruct enum as [es|].
       + destruct (no_str sv) eqn:Hs; [|discriminate]. apply strv_is_none_true in Hs. subst.
